@@ -1,6 +1,10 @@
 (* Actual/ContainActual.v — the quirk vector claimed for the current tree (hand-maintained; tied to the
    code by the correspondence check with injected partial rules, and listed flag-by-flag in known.d/C11.json). *)
-From TL Require Import Lib.Base Model.Contain.
+From TL Require Import Lib.Base Model.Contain Model.ContainWalk.
 
 Definition contain_actual : cquirks := {|
-  q_value_error_escapes := true |}.
+  q_value_error_escapes := true;
+  q_finalize_unguarded := true |}.
+
+(* the tree-sitter walkers recurse once per tree level *)
+Definition walk_actual : wquirks := {| q_walk_recursive := true |}.
